@@ -190,7 +190,7 @@ func c20Run(c Case) (Result, error) {
 	if in.Config == "nocgo" {
 		expectLines = 0
 		for _, l := range def {
-			if !strings.HasPrefix(l.Op, "bls_") && !strings.HasPrefix(l.Op, "dkg_") {
+			if !strings.HasPrefix(l.Op, "bls_") && !strings.HasPrefix(l.Op, "dkg_") && !strings.HasPrefix(l.Op, "edge_") {
 				expectLines++
 			}
 		}
